@@ -15,7 +15,7 @@ vars == <<doc0, doc, hist>>
 
 T(str) == str  \* placeholder to keep text literals readable below
 A == <<97>>  B == <<98>>  N1 == <<49>>  N01 == <<48, 49>>  M1 == <<45, 49>>  P1 == <<43, 49>>
-N0 == <<48>>  E == <<>>   TLD == <<126>>  SL == <<97, 47, 98>>  X == <<120>>
+N0 == <<48>>  M0 == <<45, 48>>  Y == <<121>>  E == <<>>   TLD == <<126>>  SL == <<97, 47, 98>>  X == <<120>>
 
 S0 == {IntV(1), Bool(TRUE), Null}
 D1 == ArraysOver(S0, 2) \cup ObjectsOver({A, N1, N01}, S0, 2)
@@ -25,7 +25,8 @@ Crafted == { Obj(<<A, B>>, <<Arr(<<IntV(1), IntV(2), IntV(3)>>), Obj(<<A>>, <<Ar
              Arr(<<Arr(<<IntV(1), IntV(2)>>), Obj(<<N1, M1, P1>>, <<IntV(1), IntV(2), IntV(3)>>)>>),
              Obj(<<E, TLD, SL>>, <<IntV(0), Arr(<<Bool(FALSE)>>), Obj(<<E>>, <<Null>>)>>),
              Obj(<<N0, N1>>, <<Arr(<<IntV(0), IntV(1)>>), Str(A)>>),
-             Arr(<<Bool(TRUE), IntV(1), Num(3), Str(N1)>>) }
+             Arr(<<Bool(TRUE), IntV(1), Num(3), Str(N1)>>),
+             Obj(<<A, M0, N0>>, <<Obj(<<X>>, <<Null>>), IntV(1), Arr(<<Obj(<<X, Y>>, <<Null, IntV(1)>>)>>)>>) }
 DocsSingle == D1 \cup D2 \cup Crafted
 DocsSeq == { Obj(<<A, B>>, <<Arr(<<IntV(1), IntV(2)>>), Obj(<<A>>, <<Arr(<<>>)>>)>>),
              Arr(<<Arr(<<IntV(1)>>), Obj(<<N1>>, <<IntV(1)>>)>>),
@@ -39,10 +40,10 @@ Values(d) == {IntV(7), Bool(TRUE), IntV(1), Arr(<<>>), Obj(<<A>>, <<Arr(<<IntV(1
 \* one-step extension of a container (append position, past the end, "-",
 \* leading zero, new / look-alike member names), a step below a scalar
 ExtTokens(v) ==
-  IF v.t = "arr" THEN {Decimal(Len(v.xs)), Decimal(Len(v.xs) + 1), Dash, <<48>> \o Decimal(Len(v.xs)), A}
+  IF v.t = "arr" THEN {Decimal(Len(v.xs)), Decimal(Len(v.xs) + 1), Dash, <<48>> \o Decimal(Len(v.xs)), A, M0}
        \* (negative array indices are a documented extension of the pointer
        \*  implementation and are kept out of the universe, DESIGN.md section 7)
-  ELSE IF v.t = "obj" THEN {X, N1, N01, M1, Dash} \ Range(v.ks)
+  ELSE IF v.t = "obj" THEN {X, N1, N01, M1, Dash, M0, N0} \ Range(v.ks)
   ELSE {A, N0}
 Existing(d) == {TokensOf(l) : l \in Range(LocsOf(d))}
 Paths(d) == Existing(d) \cup UNION {{p \o <<t>> : t \in ExtTokens(Resolve(d, p))} : p \in Existing(d)}
@@ -55,7 +56,7 @@ OpsOver(P, F, V, d) ==
   \cup {MkOp("replace", p, <<>>, v) : p \in P, v \in V}
   \cup {MkOp("move", p, f, Null) : p \in P, f \in F}
   \cup {MkOp("copy", p, f, Null) : p \in P, f \in F}
-  \cup UNION {{MkOp("test", p, <<>>, v) : v \in {IntV(1), Bool(TRUE)} \cup (IF IsErr(Resolve(d, p)) THEN {} ELSE {Resolve(d, p)})} : p \in P}
+  \cup UNION {{MkOp("test", p, <<>>, v) : v \in {IntV(1), Bool(TRUE), Obj(<<Y>>, <<Null>>), Obj(<<Y, X>>, <<IntV(1), Null>>)} \cup (IF IsErr(Resolve(d, p)) THEN {} ELSE {Resolve(d, p)})} : p \in P}
 
 OpsFor(d) == OpsOver(Paths(d), Sources(d), Values(d), d)
 
@@ -73,7 +74,7 @@ Init == /\ doc0 \in Docs
 \* negative array indices are a documented extension of the pointer implementation and outside the
 \* universe (DESIGN.md section 7); a move can turn a member name like "-1" into one, because removing
 \* the source shifts the indices its target path goes through
-IsNegIndex(tok) == Len(tok) >= 2 /\ tok[1] = 45 /\ \A i \in 2..Len(tok) : IsDigit(tok[i])
+IsNegIndex(tok) == Len(tok) >= 2 /\ tok[1] = 45 /\ tok[2] # 48 /\ \A i \in 2..Len(tok) : IsDigit(tok[i])    \* "-0" is not an index at all
 NegIndexOnArray(d, path) == path # <<>> /\ IsNegIndex(Last(path)) /\ ~IsErr(Resolve(d, Front(path))) /\ Resolve(d, Front(path)).t = "arr"
 UsesNegativeIndex(d, op) ==
   \/ NegIndexOnArray(d, op.path)
